@@ -120,6 +120,9 @@ pub struct World {
     /// would-be hang into a recorded, deterministic verdict instead of a wall-clock timeout).
     pub io_budget: Option<u64>,
     pub io_budget_tripped: bool,
+    /// Number of progress events so far (every `event()` except the polling `sleep`), counted
+    /// even when the log itself is off: lets a scheduler tell a livelock from a long run.
+    pub progress_events: u64,
 }
 
 fn task_zero() -> u32 {
@@ -149,6 +152,7 @@ impl World {
             max_read_request: 0,
             io_budget: None,
             io_budget_tripped: false,
+            progress_events: 0,
         }
     }
 
@@ -197,6 +201,9 @@ pub fn active() -> bool {
 /// Append a record to the event log (no-op without a world or with logging off).
 pub fn event(kind: &'static str, a: u64, b: u64, c: u64) {
     with(|w| {
+        if kind != "sleep" {
+            w.progress_events += 1;
+        }
         if w.log_events {
             let seq = w.events.len() as u64;
             let task = (w.task_id)();
